@@ -12,9 +12,9 @@
               bytes - whatever an earlier run that died left there: complete files, files torn at any
               byte, files overwritten with anything, files of other pipelines, foreign files
      term, chain   the element type collected and ANY node chain (any closures inside). *)
-From Coq Require Import List ZArith Bool Arith Permutation String.
+From Coq Require Import List ZArith Bool Arith Permutation String Lia.
 From IB Require Import Util.J Engine.Val Engine.Ops Engine.Nodes Engine.Exec Engine.Planner Engine.Lang
-     Ckpt.Runner Proofs.CkptRunner.
+     Ckpt.Runner Ckpt.Manager Proofs.CkptRunner Proofs.CkptManager.
 From IB Require Ckpt.Bincode Ckpt.Store.
 Import ListNotations.
 
@@ -128,6 +128,96 @@ Theorem c11_old_engine_same_without_joins :
     exec_seq_ckpt_old sh readdir H avail pct clock c fs term chain
     = exec_seq_ckpt sh readdir H avail pct clock c fs term chain.
 Proof. exact old_engine_same_without_joins. Qed.
+
+
+(* ------------------------------------------------------------------ 5. the policies, for EVERY parameter
+   CheckpointManager::should_checkpoint (Store.should_checkpoint; clock readings and `last` in nanoseconds
+   as unbounded integers, the parameters any u64 / usize - u64::MAX, usize::MAX and 0 included): the full
+   decision table, so no parameter value can make the decision fail or differ from the documentation. *)
+
+(* a disabled manager never checkpoints; AfterEveryBarrier is exactly `is_barrier` *)
+Theorem c11_policy_disabled_or_barrier :
+  forall pol last now idx b,
+    Store.should_checkpoint false pol last now idx b = false
+    /\ Store.should_checkpoint true Store.AfterEveryBarrier last now idx b = b.
+Proof. exact policy_disabled_or_barrier. Qed.
+
+(* EveryNNodes(n): after node idx iff idx > 0, n > 0 and n divides idx (n = 0: never) *)
+Theorem c11_policy_every_n :
+  forall n last now idx b, (0 <= n)%Z ->
+    Store.should_checkpoint true (Store.EveryNNodes n) last now idx b = true
+    <-> (0 < idx /\ 0 < n /\ (n | idx))%Z.
+Proof. exact policy_every_n. Qed.
+
+(* the time policies before the first successful save: always, whatever the interval *)
+Theorem c11_policy_time_first :
+  forall now idx b,
+    (forall s, Store.should_checkpoint true (Store.TimeInterval s) None now idx b = true)
+    /\ (forall bb s, Store.should_checkpoint true (Store.Hybrid bb s) None now idx b = true).
+Proof. exact policy_time_first. Qed.
+
+(* .. and after a save at time t: exactly when the clock has not gone back and at least s whole
+   seconds have elapsed; Hybrid adds `barriers && is_barrier` *)
+Theorem c11_policy_time_later :
+  forall t now s idx b bb,
+    (Store.should_checkpoint true (Store.TimeInterval s) (Some t) now idx b = true
+     <-> (t <= now /\ s * 1000000000 <= now - t)%Z)
+    /\ (Store.should_checkpoint true (Store.Hybrid bb s) (Some t) now idx b = true
+        <-> (bb = true /\ b = true) \/ (t <= now /\ s * 1000000000 <= now - t)%Z).
+Proof. exact policy_time_later. Qed.
+
+(* while the interval has not elapsed (in particular for every interval longer than the run, up to
+   u64::MAX seconds = "never by time") TimeInterval stays silent and Hybrid is its barrier half *)
+Theorem c11_policy_time_pending :
+  forall t now s idx b bb, (now < t \/ now - t < s * 1000000000)%Z ->
+    Store.should_checkpoint true (Store.TimeInterval s) (Some t) now idx b = false
+    /\ Store.should_checkpoint true (Store.Hybrid bb s) (Some t) now idx b = bb && b.
+Proof. exact policy_time_pending. Qed.
+
+(* should_checkpoint (`&mut self`) is pure: removing every call from a script of manager operations
+   (should_checkpoint / save_checkpoint / assignments to the public last_checkpoint_time) changes neither
+   the final manager - last_checkpoint_time and directory - nor the outcome of any other operation *)
+Theorem c11_should_checkpoint_is_pure :
+  forall readdir c ops m,
+    snd (mgr_run readdir c m ops) = snd (mgr_run readdir c m (without_calls ops))
+    /\ filter (fun r => negb (is_decision r)) (fst (mgr_run readdir c m ops))
+       = fst (mgr_run readdir c m (without_calls ops)).
+Proof. exact calls_are_pure. Qed.
+
+(* the checkpoint block the sequential engine runs after node idx is the manager call sequence
+   should_checkpoint(idx, is_barrier, total), then - when told to - save_checkpoint of the engine's state *)
+Theorem c11_checkpoint_block_is_manager_calls :
+  forall readdir H pct clock c pid total idx n m,
+    ckpt_after readdir H pct clock c pid total idx n m
+    = decide_then_save readdir c (clock idx 0%nat) (clock idx 2%nat) (Z.of_nat idx) (is_barrier n)
+        (mk_state H pid (Z.of_nat idx) (ts_ms (clock idx 1%nat)) 1%Z (string_bytes "sequential")
+                  (Z.of_nat total) (node_type n) (pct idx total)) m.
+Proof. exact ckpt_block_is_call_then_save. Qed.
+
+(* EveryNNodes(n) with n = 0 or n at least the plan length (usize::MAX ..): the sequential run writes
+   nothing (generalises c11_every0_writes_nothing) *)
+Theorem c11_every_beyond_plan_writes_nothing :
+  forall sh readdir H avail pct clock, (Bincode.ckpt_limit <= avail)%Z ->
+  forall c n fs term chain,
+    c_policy c = Store.EveryNNodes n -> (n = 0 \/ Z.of_nat (List.length chain) <= n)%Z ->
+    let pid := pid_seq H (List.length chain) in
+    let '(res, d') := exec_seq_ckpt sh readdir H avail pct clock c fs term chain in
+    d' = match res with Ok _ => Store.clear readdir pid (mkdir fs) | _ => mkdir fs end.
+Proof. exact every_beyond_writes_nothing. Qed.
+
+(* Hybrid { barriers: false, interval_secs: s } is TimeInterval(s): same outcome AND same directory *)
+Theorem c11_hybrid_without_barriers_is_time_interval :
+  forall sh readdir H avail pct clock en s auto max fs term chain,
+    exec_seq_ckpt sh readdir H avail pct clock (mk_cfg en (Store.Hybrid false s) auto max) fs term chain
+    = exec_seq_ckpt sh readdir H avail pct clock (mk_cfg en (Store.TimeInterval s) auto max) fs term chain.
+Proof. exact hybrid_false_is_time. Qed.
+
+(* the parallel wrapper never consults the policy: outcome and directory do not depend on it *)
+Theorem c11_parallel_ignores_policy :
+  forall sh readdir H avail clock en p1 p2 auto max fs term chain partitions,
+    exec_par_ckpt sh readdir H avail clock (mk_cfg en p1 auto max) fs term chain partitions
+    = exec_par_ckpt sh readdir H avail clock (mk_cfg en p2 auto max) fs term chain partitions.
+Proof. exact par_ignores_policy. Qed.
 
 (* ================================================================== non-vacuity examples *)
 Open Scope Z_scope.
@@ -293,4 +383,81 @@ Example ex_policies :
   /\ saved_indices (Store.TimeInterval 3600) = [0]
   /\ saved_indices Store.AfterEveryBarrier = [3; 1]
   /\ saved_indices (Store.Hybrid true 3600) = [3; 1; 0].
+Proof. vm_compute. repeat split; reflexivity. Qed.
+
+(* ---- section 5 ---- *)
+Definition u64max : Z := 18446744073709551615.
+Definition t_save : Z := 1790000000 * 1000000000.      (* a save in 2026 *)
+
+(* c11_policy_disabled_or_barrier / c11_policy_every_n: n = 4 fires after nodes 4, 8 but not 0, 2;
+   n = usize::MAX fires after node usize::MAX only; n = 0 never; and 4 | 8 *)
+Example ex_policy_every :
+  map (fun i => Store.should_checkpoint true (Store.EveryNNodes 4) None 0 i false) [0; 2; 4; 8; 9]
+  = [false; false; true; true; false]
+  /\ map (fun i => Store.should_checkpoint true (Store.EveryNNodes u64max) None 0 i true)
+         [0; 1; 4294967296; u64max - 1; u64max] = [false; false; false; false; true]
+  /\ map (fun i => Store.should_checkpoint true (Store.EveryNNodes 0) None 0 i true) [0; 1; u64max]
+     = [false; false; false]
+  /\ (0 < 8 /\ 0 < 4 /\ (4 | 8))%Z
+  /\ Store.should_checkpoint false (Store.EveryNNodes 1) None 0 5 true = false
+  /\ map (Store.should_checkpoint true Store.AfterEveryBarrier (Some 7) 0 3) [false; true] = [false; true].
+Proof.
+  repeat split; try (vm_compute; reflexivity); try lia. exists 2. reflexivity.
+Qed.
+
+(* c11_policy_time_first / _later / _pending: intervals 0, one hour and u64::MAX seconds, one
+   millisecond and two hours after a save, and with a clock that went back *)
+Example ex_policy_time :
+  let ms := 1000000 in let hour := 3600 * 1000000000 in
+  map (fun s => Store.should_checkpoint true (Store.TimeInterval s) None t_save 3 false) [0; 3600; u64max]
+  = [true; true; true]
+  /\ map (fun s => Store.should_checkpoint true (Store.TimeInterval s) (Some t_save) (t_save + ms) 3 true)
+         [0; 3600; u64max] = [true; false; false]
+  /\ map (fun s => Store.should_checkpoint true (Store.TimeInterval s) (Some t_save) (t_save + 2 * hour) 3 true)
+         [0; 3600; 7200; 7201; u64max] = [true; true; true; false; false]
+  /\ map (fun b => Store.should_checkpoint true (Store.Hybrid true u64max) (Some t_save) (t_save + ms) 3 b)
+         [false; true] = [false; true]
+  /\ map (fun b => Store.should_checkpoint true (Store.Hybrid false u64max) (Some t_save) (t_save + ms) 3 b)
+         [false; true] = [false; false]
+  /\ Store.should_checkpoint true (Store.TimeInterval 0) (Some t_save) (t_save - 1) 3 true = false
+  /\ (t_save + ms - t_save < u64max * 1000000000)%Z
+  /\ (t_save <= t_save + 2 * hour /\ 7200 * 1000000000 <= t_save + 2 * hour - t_save)%Z.
+Proof. vm_compute. repeat split; try reflexivity; discriminate. Qed.
+
+(* c11_should_checkpoint_is_pure / c11_checkpoint_block_is_manager_calls: a script under
+   Hybrid{true, u64::MAX}, retention 1: decide (first call: by time), save, decide twice (barrier only),
+   set last_checkpoint_time to None by hand, decide (by time again), save, decide *)
+Definition ex_mstate (k ts : Z) : Bincode.cstate :=
+  mk_state exH (nm "00000000000000aa") k ts 1 (nm "sequential") 1 (nm "Stateless") 0.
+Definition ex_script : list (Z * mop) :=
+  [(t_save, MCall 0 false); (t_save + 1, MSave (ex_mstate 1 1700000000001));
+   (t_save + 2, MCall 1 false); (t_save + 3, MCall 2 true); (t_save + 4, MSetLast None);
+   (t_save + 5, MCall 3 false); (t_save + 6, MSave (ex_mstate 6 1700000000002)); (t_save + 7, MCall 4 false)].
+Example ex_manager_script :
+  let c := ex_cfg (Store.Hybrid true u64max) (Some 1) in
+  let '(rs, m) := mgr_run rev_listing c (mk_mgr None []) ex_script in
+  rs = [RDecision true; RSaved true; RDecision false; RDecision true; RSet; RDecision true; RSaved true;
+        RDecision false]
+  /\ m_last m = Some (t_save + 6)
+  /\ Store.dir_names (m_dir m) = [Store.ckpt_name (nm "00000000000000aa") 1700000000002]
+  /\ List.length (without_calls ex_script) = 3%nat.
+Proof. vm_compute. repeat split; reflexivity. Qed.
+
+(* c11_every_beyond_plan_writes_nothing / c11_hybrid_without_barriers_is_time_interval /
+   c11_parallel_ignores_policy on the 6-node plan whose last node panics: EveryNNodes(6) and
+   EveryNNodes(usize::MAX) save nothing where EveryNNodes(5) saves node 5's predecessor.. ; the two
+   spellings of "time only" leave the same files; Hybrid{true, u64::MAX} = barriers + the first node *)
+Example ex_policies_extreme :
+  List.length (ex_chain ++ [NB (BStateless [crash_op])]) = 6%nat
+  /\ saved_indices (Store.EveryNNodes 6) = []
+  /\ saved_indices (Store.EveryNNodes u64max) = []
+  /\ saved_indices (Store.EveryNNodes 4) = [4]
+  /\ saved_indices (Store.Hybrid false u64max) = [0]
+  /\ saved_indices (Store.TimeInterval u64max) = [0]
+  /\ saved_indices (Store.Hybrid true u64max) = [3; 1; 0]
+  /\ saved_indices (Store.Hybrid false 0) = saved_indices (Store.TimeInterval 0)
+  /\ exec_par_ckpt id_sh rev_listing exH ex_avail ex_clock (ex_cfg (Store.TimeInterval u64max) (Some 1)) None
+                   (term_tag ex_src ex_nested) (plan ex_src ex_nested) 3
+     = exec_par_ckpt id_sh rev_listing exH ex_avail ex_clock (ex_cfg (Store.EveryNNodes 0) (Some 1)) None
+                     (term_tag ex_src ex_nested) (plan ex_src ex_nested) 3.
 Proof. vm_compute. repeat split; reflexivity. Qed.
